@@ -83,6 +83,17 @@ CLAIMED["C08"] = dict(
          "with the reference are judged; adaptive tolerance 1e-3 relative (piecewise-linear input has kinks).",
     design_ref="DESIGN.md §4 C08")
 
+CLAIMED["C09"] = dict(
+    technique="Hypothesis-generated circuits with discrete edge delays; differential against the delayed reference "
+              "recurrence (Euler), vectorize on/off",
+    text="Edges carry delay None or d with round(d/dt) in 2..7 in drawn mixtures (several delays per source and per "
+         "target, delayed next to undelayed edges, algebraic and state sources); every state trajectory of run() must "
+         "equal the recurrence target(k) += w*source(k-round(d/dt)).",
+    note="Only models whose delay-free version agrees with the reference are judged; shapes of the listed known "
+         "findings (same pair twice, two delayed variables of one operator, vectorised fan-in to one unit) are "
+         "repaired/excluded and counted; Connectivity delays are covered by C16's check.",
+    design_ref="DESIGN.md §4 C09")
+
 NOT_YET = {}
 
 
